@@ -230,25 +230,32 @@ Qed.
 Lemma group_eqb_eq a b : group_eqb a b = true -> a = b.
 Proof. destruct a, b; simpl; try discriminate; reflexivity. Qed.
 
-Theorem taint_sound te d isLast nonStatic s :
-  char_one te d isLast nonStatic = Some s -> s_group s = GStatic ->
-  forall t, In t (fl (f_in (s_flows s))) -> memb t nonStatic = false.
+(* a provider that stays static has no input whose type is non-static, nor an interface input that
+   a provider Loose for it may satisfy with a non-static type *)
+Theorem taint_sound te d isLast looseFor nonStatic s :
+  char_one te d isLast looseFor nonStatic = Some s -> s_group s = GStatic ->
+  forall t, In t (fl (f_in (s_flows s))) ->
+    memb t nonStatic = false /\
+    forall T, In (t, T) looseFor -> memb T nonStatic = false.
 Proof.
   unfold char_one. destruct (characterizeFunc te d (mkCC isLast true)) as [s0|] eqn:E0; [|discriminate].
-  destruct (group_eqb (s_group s0) GStatic && existsb (fun t => memb t nonStatic) (fl (f_in (s_flows s0)))) eqn:Eb.
+  destruct (group_eqb (s_group s0) GStatic && existsb (tainted_in looseFor nonStatic) (fl (f_in (s_flows s0)))) eqn:Eb.
   - intros H Hg. exfalso. eapply (tainted_never_static te d (mkCC isLast false) s H); [reflexivity | exact Hg].
   - intros H Hg t Ht. inversion H; subst s0.
     rewrite Hg in Eb. simpl in Eb.
-    eapply existsb_false_forall in Eb; [exact Eb | exact Ht].
+    pose proof (existsb_false_forall _ _ Eb t Ht) as Ef. unfold tainted_in in Ef.
+    apply orb_false_iff in Ef. destruct Ef as [E1 E2]. split; [exact E1|].
+    intros T HT. pose proof (existsb_false_forall _ _ E2 (t, T) HT) as E3. cbn [fst snd] in E3.
+    rewrite Nat.eqb_refl in E3. exact E3.
 Qed.
 
 (* the taint set only grows, by the outputs of invoke-time providers *)
-Theorem static_classification_is_table_driven te d isLast nonStatic s :
-  char_one te d isLast nonStatic = Some s -> s_group s = GStatic ->
+Theorem static_classification_is_table_driven te d isLast looseFor nonStatic s :
+  char_one te d isLast looseFor nonStatic = Some s -> s_group s = GStatic ->
   is_func_shape (d_shape d) = true /\ d_cacheable d = true /\ d_notCacheable d = false /\ isLast = false.
 Proof.
   unfold char_one. destruct (characterizeFunc te d (mkCC isLast true)) as [s0|] eqn:E0; [|discriminate].
-  destruct (group_eqb (s_group s0) GStatic && existsb (fun t => memb t nonStatic) (fl (f_in (s_flows s0)))) eqn:Eb.
+  destruct (group_eqb (s_group s0) GStatic && existsb (tainted_in looseFor nonStatic) (fl (f_in (s_flows s0)))) eqn:Eb.
   - intros H Hg. exfalso. eapply (tainted_never_static te d (mkCC isLast false) s H); [reflexivity | exact Hg].
   - intros H Hg. inversion H; subst s0.
     destruct (static_requires te d (mkCC isLast true) s E0 Hg) as (H1 & H2 & H3 & _ & H5). simpl in H5. auto.
